@@ -112,8 +112,11 @@ def thorough(rep, mod, pid):
         evd = tempfile.mkdtemp(prefix="tvself-ev-")
         env = dict(os.environ, VERIF_EVIDENCE_DIR=evd, VERIF_TIER="quick")
         env.pop("VERIF_CONFIG", None)
-        r = subprocess.run([os.path.join(verif, "tools", "with_patch.sh"), os.path.join(verif, "selftest", name), os.path.join(verif, "check"), pid, "--tier", "quick"],
-                           cwd=verif, env=env, stdout=subprocess.PIPE, stderr=subprocess.STDOUT, text=True)
+        for attempt in (0, 1):
+            r = subprocess.run([os.path.join(verif, "tools", "with_patch.sh"), os.path.join(verif, "selftest", name), os.path.join(verif, "check"), pid, "--tier", "quick"],
+                               cwd=verif, env=env, stdout=subprocess.PIPE, stderr=subprocess.STDOUT, text=True)
+            if r.returncode in (0, 1):
+                break           # rc 2/3 = the machinery itself failed on the scratch copy: retry once
         subprocess.run(["rm", "-rf", evd])
         lines = [l.strip() for l in r.stdout.splitlines() if l.strip().startswith("violation")]
         if e.get("benign"):
